@@ -192,3 +192,37 @@ pub unsafe fn xen_ioctl_with_ref<F: std::os::unix::io::AsRawFd, T>(
         _ => -1,
     }
 }
+
+// ---------------------------------------------------------------------------------------------
+// H4: `GuestMemoryExclusiveGuard::replace` — when the new map has been stored, is the update
+// mutex still held?  A scope object declared at the top of `replace` is dropped after the store
+// (the function's tail expression) and before the consumed guard (a parameter), and records
+// whether the mutex can be taken at that moment.
+#[cfg(feature = "backend-atomic")]
+thread_local! {
+    static REPLACE_LOG: RefCell<Vec<bool>> = const { RefCell::new(Vec::new()) };
+}
+
+/// one entry per completed `replace`: `true` = the update mutex was held when the store was done
+#[cfg(feature = "backend-atomic")]
+pub fn replace_log_take() -> Vec<bool> {
+    REPLACE_LOG.with(|l| std::mem::take(&mut *l.borrow_mut()))
+}
+
+#[cfg(feature = "backend-atomic")]
+pub struct ReplaceScope<'a>(&'a std::sync::Mutex<()>);
+
+#[cfg(feature = "backend-atomic")]
+impl<'a> ReplaceScope<'a> {
+    pub fn new(m: &'a std::sync::Mutex<()>) -> Self {
+        ReplaceScope(m)
+    }
+}
+
+#[cfg(feature = "backend-atomic")]
+impl Drop for ReplaceScope<'_> {
+    fn drop(&mut self) {
+        let held = self.0.try_lock().is_err();
+        REPLACE_LOG.with(|l| l.borrow_mut().push(held));
+    }
+}
